@@ -16,6 +16,8 @@ ASSUMPTIONS = [
     "ends <= t_min; non_immediate_operations: earliest start == t_min; non_immediate_machines: some eligible machine on which some "
     "operation of L starts at t_min; dominated: on some eligible machine its start < min over L of (start+duration) there; "
     "t_min = min over L and eligible machines of the forced start",
+    "'second' sub-spaces check the single filters in the states of a second episode (after an earlier episode of every length, during which "
+    "the filters were called, and a reset())",
     "filters are called directly with every non-empty order-preserving sub-list L of the ready operations in every reachable state; "
     "compositions are built by create_composite_operation_filter and compared with the chain of single filters on a replica dispatcher",
 ]
@@ -38,6 +40,7 @@ def subspaces(tier):
     for dmin in (1, 0):
         out += C.structure_subspaces(s4, 2, False, mode="criteria", dmin=dmin, maxlen=ml)
         out += C.structure_subspaces(s3, 2, True, only_flexible=True, mode="criteria", dmin=dmin, maxlen=ml)
+    out += C.structure_subspaces(s3 + [(2, 2)], 2, False, canonical=True, mode="criteria", dmin=1, maxlen=1, second=True)
     for f in [[b] for b in BUILTIN] + [C.FILTERS["default_pair"]]:
         out += C.structure_subspaces(s4, 2, False, mode="progress", dmin=0, filter=f)
         out += C.structure_subspaces(s3, 2, True, only_flexible=True, mode="progress", dmin=0, filter=f)
@@ -51,7 +54,7 @@ def subspaces(tier):
 
 
 def cost(sp):
-    return C.cost(dict(sp, filter="none")) * (8 if sp["mode"] == "criteria" else 1)
+    return C.cost(dict(sp, filter="none")) * (8 if sp["mode"] == "criteria" else 1) * (C.cost(dict(sp, filter="none")) if sp.get("second") else 1)
 
 
 def criterion(name, o, L, desc, spec, tmin):
@@ -129,6 +132,20 @@ def harness(eng, sp):
 
     disp = Dispatcher(inst)
     rep = Dispatcher(inst)
+    if sp.get("second"):
+        # the same dispatchers after an earlier episode of chosen length and a reset(): states of later episodes are reachable states
+        s0 = Spec(desc)
+        f0 = ready_operations_filter_factory("non_idle_machines")
+        for _ in range(1 + eng.choice(desc.n_ops, "first-episode-length")):
+            f0(disp, disp.raw_ready_operations())
+            op, m = D.choose_dispatch(eng, desc, s0)
+            disp.dispatch(D.op_by_id(inst, op), m)
+            rep.dispatch(D.op_by_id(inst, op), m)
+            s0.apply(op, m)
+        for b in BUILTIN:
+            ready_operations_filter_factory(b)(disp, disp.raw_ready_operations()) if not disp.schedule.is_complete() else None
+        disp.reset()
+        rep.reset()
     singles = {b: ready_operations_filter_factory(b) for b in BUILTIN}
     comps = [c for c in compositions(sp["maxlen"]) if len(c) > 1]
     comp_fns = [(c, create_composite_operation_filter(c)) for c in comps]
